@@ -60,3 +60,7 @@ package lifecycle
 //verif:call[publish-before-status] PipelineService.UpdateStatus requires called("csync.(*Map).Set") && arg2 == StatusRunning
 //verif:call[publish-under-lock] csync.(*Map).Set requires called("sync.(*Mutex).Lock") && count("sync.(*Mutex).Unlock") == 0 && arg2 == rp
 //verif:call[unpublish-own-entry-only] (*Service).deleteRunningPipelineIfCurrent requires arg2 == rp && called("PipelineService.UpdateStatus") && !succeeded("PipelineService.UpdateStatus")
+
+// C03: on start-up exactly the pipelines found system-stopped are started again.
+//verif:func (*Service).Init(s, ctx) (err)
+//verif:call[resume-only-system-stopped] (*Service).Start requires result_of("(*Instance).GetStatus", 0) == StatusSystemStopped && since("(*Service).Start", "(*Instance).GetStatus") == 0
